@@ -1317,7 +1317,9 @@ theorem stripSuffix?_append (r s : Text) : stripSuffix? s (r ++ s) = some r := b
 
 /-- everything `runJob` does, related to the property -/
 theorem runJob_spec (b : Backend) (mds : List Md) (uses : List Use) (c0 gap : Nat) (ks : List Consumer)
-    (hwt : ∀ md ∈ mds, md.WellTyped) (hkind : ∀ md ∈ mds, KindDefault b md) (hcms : ∀ md ∈ mds, CmsIsCollection b md)
+    (hwt : ∀ md ∈ mds, md.WellTyped)
+    (hkind : ∀ md ∈ mds, md.mdType = b.mdType → KindDefault b md)
+    (hcms : ∀ md ∈ mds, md.mdType = b.mdType → CmsIsCollection b md)
     (hclean : ∀ p ∈ resolveAll b mds uses, TypeClean p.1) (hnames : ∀ u ∈ uses, NameClean u.name) :
     RunSpec b mds uses (outcomeOf (runJob b mds uses c0 gap) ks) := by
   cases hr : runJob b mds uses c0 gap with
@@ -1332,7 +1334,7 @@ theorem runJob_spec (b : Backend) (mds : List Md) (uses : List Use) (c0 gap : Na
         obtain ⟨cvs, n⟩ := p
         simp only [hd, hf, Except.ok.injEq] at hr
         obtain ⟨d1, d2, d3⟩ := declare_sound hd
-        have ht := d3 hkind
+        have ht := d3 (fun md hm => hkind md hm (d1 md hm).1)
         obtain ⟨u1, u2⟩ := findAll_ok hf
         have u2' : cvs = cvsOf b.coder table uses c0 := u2
         subst u2'
@@ -1397,9 +1399,9 @@ theorem runJob_spec (b : Backend) (mds : List Md) (uses : List Use) (c0 gap : Na
   | error e =>
     simp only [outcomeOf, RunSpec]
     intro hacc
-    obtain ⟨table, hd⟩ := declare_complete hacc.1 hwt hcms
+    obtain ⟨table, hd⟩ := declare_complete hacc.1 hwt (fun md hm => hcms md hm (hacc.1 md hm).1)
     obtain ⟨_, _, d3⟩ := declare_sound hd
-    have ht := d3 hkind
+    have ht := d3 (fun md hm => hkind md hm (hacc.1 md hm).1)
     have huse : ∀ u ∈ uses, UseOk table u := by
       intro u hu
       refine ⟨(hacc.2 u hu).1, ?_⟩
